@@ -358,8 +358,14 @@ def run(run):
                    'snapshot': '9%dw%02dz%d' % (h % 10, step, fresh_counter[0]),
                    'pre': '9.%d.%d-pre1' % (h, fresh_counter[0]),
                    'rc': '9.%d-rc%d' % (h, fresh_counter[0])}[shape]
-            rec = minecraft.Version(vid, proto, rng.random() < 0.6 or
-                                    forced_shape is not None)
+            flag = rng.random() < 0.6 or forced_shape is not None
+            if rng.random() < 0.3:
+                # the flag is used as a truth value: a record may carry any
+                # truthy / falsy object there
+                flag = rng.choice((1, 'yes', 2.0, [0])) if flag else \
+                    rng.choice((0, '', None, 0.0))
+                run.count('extensions.supported_flag_not_a_bool')
+            rec = minecraft.Version(vid, proto, flag)
             # a record is what has the attributes id, protocol, supported: a
             # program may use a richer record type of its own
             kind_ = rng.choice(('Version', 'Version', 'subclass', 'wider',
@@ -376,7 +382,7 @@ def run(run):
                 records.append(rec)
             else:
                 records.insert(rng.randrange(len(records) + 1), rec)
-            hist.append((where, vid, proto, rec.supported))
+            hist.append((where, vid, proto, repr(rec.supported)))
         try:
             for _ in range(rng.choice((1, 2))):
                 minecraft.initglobals(use_known_records=True)
